@@ -253,6 +253,49 @@ theorem list_text_roundtrip (o : Opts) (first : List (List Char)) (rest : List (
         (fun r => parseLine (fourColOf (strRow first)) o.ploidy (strRow r)) :=
   parseText_render o first rest h
 
+/-- **later_line_is_data** (round 8): only the FIRST line of the list can be the header.  Every later line `r` of an
+accepted list — whatever its first character, in particular a read name starting with `#` (legal in FASTQ and as BAM
+QNAME) — is parsed as a data line and contributes its entry to the parsed lines (hence, by `table_realises_list` /
+`split_text_end_to_end`, to the option table and the outputs). -/
+theorem later_line_is_data (o : Opts) (first r : List (List Char)) (pre post : List (List (List Char)))
+    (h : ∀ x ∈ first :: (pre ++ r :: post), RowOK x) (lines : List Line)
+    (hp : parseText o (renderText (first :: (pre ++ r :: post))) = .ok lines) :
+    ∃ ln ∈ lines, parseLine (fourColOf (strRow first)) o.ploidy (strRow r) = .ok ln := by
+  rw [list_text_roundtrip o first _ h] at hp
+  split at hp
+  · cases hp
+  · split at hp
+    · cases hp
+    · have hr : r ∈ pre ++ r :: post := by simp
+      by_cases hh : rawHeader (renderLine first) = true
+      · simp only [hh, if_true] at hp
+        exact WhVerif.Lemmas.C14.mapM_ok_mem _ _ _ hp r hr
+      · simp only [hh, Bool.false_eq_true, if_false] at hp
+        exact WhVerif.Lemmas.C14.mapM_ok_mem _ _ _ hp r (List.mem_cons_of_mem _ hr)
+
+/-- the entry of a parsed data line is the line's first column, verbatim -/
+theorem parseLine_name (four : Bool) (ploidy : Nat) (n : String) (cols : List String) (ln : Line)
+    (h : parseLine four ploidy (n :: cols) = .ok ln) : ln.name = n := by
+  unfold parseLine at h
+  split at h
+  · split at h
+    · rename_i n' hh ps c _ heq
+      cases heq
+      split at h
+      · cases h; rfl
+      · cases h
+    · cases h
+  · split at h
+    · rename_i n' hh _ heq
+      cases heq
+      split at h
+      · cases h; rfl
+      · cases h
+    · cases h
+
+example : RowOK ["#r2".toList, "H2".toList] :=
+  ⟨by simp, by decide, by decide, by decide, by decide⟩
+
 example : RowOK ["r1".toList, "H1".toList] :=
   ⟨by simp, by decide, by decide, by decide, by decide⟩
 
@@ -410,6 +453,16 @@ example : parseText (o2 false false) " #name\thaplotype\na\tH1\n".toList = .erro
 example : parseText (o2 false false) "a\tH1\t7\tchr1\nb\tH2\t7\t\n".toList = .error .valueError := rfl
 /-- a blank line has the single column `""`: `IndexError` in a 2-column list -/
 example : parseText (o2 false false) "a\tH1\n\nb\tH2\n".toList = .error .indexError := rfl
+/-- round 8: a read name starting with `#` on line 2 (no header) resp. right after the header is an ordinary entry, and the
+read goes to the output it selects; on line 1 it is taken for the header (the documented rule) -/
+example : parseText (o2 false false) "r1\tH1\n#r2\tH2\nr3\tnone\n".toList =
+    .ok [⟨"r1", 1, "", ""⟩, ⟨"#r2", 2, "", ""⟩, ⟨"r3", 0, "", ""⟩] := rfl
+example : parseText (o2 false false) "#readname\thaplotype\n#readname\tH2\n##\tH1\n".toList =
+    .ok [⟨"#readname", 2, "", ""⟩, ⟨"##", 1, "", ""⟩] := rfl
+example : parseText (o2 false false) "#r2\tH2\nr1\tH1\n".toList = .ok [⟨"r1", 1, "", ""⟩] := rfl
+example : ∃ o p, runSplit ⟨true, true, none, true⟩ ⟨false, false, false⟩ "r1\tH1\n#r2\tH2\nr3\tnone\n".toList
+    [⟨"r1", 8⟩, ⟨"#r2", 6⟩, ⟨"r3", 4⟩] = .ok (o, p) ∧ written p 1 = [0] ∧ written p 2 = [1] ∧ written p 0 = [2] :=
+  ⟨_, _, rfl, rfl, rfl, rfl⟩
 /-- `\r\n` and a missing final newline are fine -/
 example : parseText (o2 false false) "a\tH1\r\nb\tH2".toList = .ok [⟨"a", 1, "", ""⟩, ⟨"b", 2, "", ""⟩] := rfl
 /-- largest block keyed by (chromosome, phase set): phase set 7 has 2 lines on chr1 and 1 on chr2, phase set 9 has 2 on
